@@ -265,6 +265,10 @@ func (p *Project) Transform() Query {
 		// combine projects by removing all but the first
 		return newProject(q.source, p.columns).Transform()
 	case *Summarize:
+		if q.wholeRow {
+			// the columns of the whole row are not by columns
+			break
+		}
 		cols := make([]string, 0, len(q.cols))
 		ops := make([]string, 0, len(q.ops))
 		ons := make([]string, 0, len(q.ons))
@@ -279,7 +283,14 @@ func (p *Project) Transform() Query {
 			return newProject(q.source, p.columns).Transform()
 		}
 		if set.HasSubset(p.columns, q.by) {
-			return NewSummarize(q.source, q.hint, q.by, cols, ops, ons).Transform()
+			su := NewSummarize(q.source, q.hint, q.by, cols, ops, ons)
+			if su.wholeRow {
+				// a single min/max is left and it would return the whole row
+				// (possibly with a column named like the summary), so keep
+				// the summarize as it is
+				break
+			}
+			return su.Transform()
 		}
 	case *Rename:
 		return p.transformRename(q)
